@@ -91,6 +91,8 @@ def nonnull_edges(fn, var_d=None, member=None):
 
 
 def run(ctx, prog):
+    from rules import oncefree
+    oncefree.run(ctx, prog)
     cg, ext = prog.callgraph()
     # ------------------------------------------------------------ R-WMC-ALLOC
     rule = "R-WMC-ALLOC"
